@@ -140,8 +140,8 @@ def run(rep, tier):
     # 4. the intended schedules (formulas in the shape) hold for every shape class; the real operators stay inside them
     vlib.sany("ZebraSchedule")
     zcfg = os.path.join(vlib.BUILD, "cfg", "zebra_%s.cfg" % tier)
-    znr, znt = ("{5,6,7,8,9,10,12}", "{4,6,8,10,12,16,20,24,28}") if thorough else ("{5,7,8,10}", "{4,6,8,12,16}")
-    open(zcfg, "w").write('SPECIFICATION Spec\nCONSTANTS\n  NrSet = %s\n  NtSet = %s\n  Ops = {"residualGive", "smootherTake", "xsmootherTake", "residualTake"}\n  EmitTables = FALSE\n'
+    znr, znt = ("{5,6,7,8,9,10,11,12,13,14}", "{4,6,8,10,12,14,16,18,20,24,28,32,36,40}") if thorough else ("{5,6,7,8,9,10,12}", "{4,6,8,10,12,16,20,24}")
+    open(zcfg, "w").write('SPECIFICATION Spec\nCONSTANTS\n  NrSet = %s\n  NtSet = %s\n  Ops = {"residualGive", "smootherTake", "xsmootherTake", "residualTake", "smootherGive"}\n  EmitTables = FALSE\n  FIXED = {"F19"}\n'
                           'INVARIANTS EpochDisjoint AllRadialOnce AllCirclesOnce\n' % (znr, znt))
     z = vlib.tlc("ZebraSchedule", zcfg, workers=8, heap="8g", tag="zebra", timeout=3000)
     rep.add_tlc(z, "ZebraSchedule.tla: EpochDisjoint, AllRadialOnce, AllCirclesOnce for every shape nr in %s, ntheta in %s, 2..9 circles, both boundary modes" % (znr, znt))
@@ -149,29 +149,64 @@ def run(rep, tier):
         rep.violation("model:Zebra:" + z.violation, "ZebraSchedule.tla: %s violated\n%s" % (z.violation, vlib.counterexample(z)[:1200]), replay={"spec": "ZebraSchedule"})
     elif z.rc != 0:
         raise vlib.HarnessError("ZebraSchedule failed:\n" + z.out[-1500:])
-    ops_shapes = [(9, 12, 4, 0), (9, 12, 5, 1), (8, 8, 3, 0), (10, 16, 6, 0), (10, 16, 7, 1)]
+    # 4b. every operator with an intended schedule, run ALONE on many small shapes: the verdict is race freedom of the observed
+    #     tables (TLC, OmpRegions RaceFree); containment in the intended tables is the binding of ZebraSchedule.tla - a mismatch
+    #     that is not a race (an added barrier, a restructured loop) is recorded as model drift, not as a violation
+    contain_shapes = [(9, 12, 4, 0), (9, 12, 5, 1), (8, 8, 3, 0), (10, 16, 6, 0), (10, 16, 7, 1)]
     if thorough:
-        ops_shapes += [(12, 20, 9, 0), (12, 20, 2, 1), (7, 4, 3, 0), (9, 12, 6, 1), (8, 8, 5, 1), (12, 8, 8, 0), (10, 16, 2, 0)]
-    tabs, err = oc.intended_tables(rep, sorted({(a, b) for (a, b, _c, _d) in ops_shapes}))
+        contain_shapes += [(12, 20, 9, 0), (12, 20, 2, 1), (7, 4, 3, 0), (9, 12, 6, 1), (8, 8, 5, 1), (12, 8, 8, 0), (10, 16, 2, 0)]
+        race_shapes = [(nr, nt, nc, d) for nr in (7, 8, 9, 10, 12) for nt in (4, 6, 8, 12, 16, 20) for nc in range(2, 10) if nc <= nr - 3 for d in (0, 1)]
+    else:
+        race_shapes = [(7, 4, 2, 0), (7, 6, 3, 1), (7, 8, 4, 0), (8, 6, 5, 0), (9, 8, 6, 1), (10, 12, 7, 0), (12, 8, 8, 1), (12, 10, 9, 0),
+                       (9, 16, 3, 0), (10, 4, 5, 1), (12, 20, 4, 0), (9, 10, 2, 1)]
+    race_shapes = list(dict.fromkeys(contain_shapes + race_shapes))
+    tabs, err = oc.intended_tables(rep, contain_shapes)
     if err:
         rep.violation("model:Zebra:emit", err, replay={"spec": "ZebraSchedule"})
-    else:
-        nops = 0
-        for i, (nr, nt, nc, d) in enumerate(ops_shapes):
-            obs, err = oc.observe_ops(nr, nt, nc, d, [3, 2, 5][i % 3])
-            if err:
-                rep.violation("schedule:crash", err, replay={"shape": [nr, nt, nc, d]})
-                continue
+        tabs = {}
+    nops, drift, batch = 0, [], []
+
+    def flush(batch):
+        regs = [r for (_sh, rs) in batch for r in rs]
+        for reg, pair in oc.check_regions(rep, regs, "ops"):
+            a, b, cells = pair if pair else ({}, {}, [])
+            la, lb = reg["loops"].get(a.get("lp")), reg["loops"].get(b.get("lp"))
+            sh = reg["shape"]
+            rep.violation("race:%s|%s" % (la, lb),
+                          "operator run alone on a %dx%d grid with %d circles (dirbc=%d): iterations %s#%s and %s#%s lie in the same barrier epoch %s of one "
+                          "parallel region and touch %d common cell(s) with at least one write" % (sh[0], sh[1], sh[2], sh[3], la, a.get("it"), lb, b.get("it"), a.get("ep"), len(cells)),
+                          replay={"ops_shape": list(sh), "region": reg["id"], "a": a, "b": b})
+    for i, sh in enumerate(race_shapes):
+        nr, nt, nc, d = sh
+        rec, err = oc.record_ops(nr, nt, nc, d, [3, 2, 5][i % 3])
+        if err:
+            rep.violation("schedule:crash", err, replay={"shape": list(sh)})
+            continue
+        regions, _n = oc.regions_of(rec)
+        for r in regions:
+            r["id"] = i * 1000 + r["id"]
+            r["shape"] = sh
+        batch.append((sh, regions))
+        rep.case(key="ops_%dx%d_c%d_d%d" % sh, nontrivial=True)
+        if sh in contain_shapes and tabs:
+            obs, err = oc.observe_ops(nr, nt, nc, d, 0, rec=rec)
             for op in oc.ZEBRA_OPS:
-                if op == "xsmootherTake" and not (nr % 2 == 1 and nt % 2 == 0):
+                if op == "xsmootherTake" and not (nr % 2 == 1 and nt % 4 == 0 and nc >= 3):
                     continue      # the extrapolated smoother exists only on grids that have a coarse grid
                 why = oc.contained(obs.get(op, []), tabs[(op, nr, nt, nc, bool(d))])
                 nops += 1
-                rep.case(key="ops_%s_%dx%d_c%d_d%d" % (op, nr, nt, nc, d), nontrivial=True)
                 if why:
-                    rep.violation("schedule:%s" % op, "%s on a %dx%d grid with %d circles (dirbc=%d) leaves the intended schedule of ZebraSchedule.tla: %s"
-                                  % (op, nr, nt, nc, d, why), replay={"op": op, "shape": [nr, nt, nc, d], "why": why})
-        rep.cov["operators_contained_in_intended_schedule"] = nops
+                    drift.append("%s %dx%d c%d d%d: %s" % (op, nr, nt, nc, d, why))
+        if len(batch) >= 40:
+            flush(batch)
+            batch = []
+    if batch:
+        flush(batch)
+    rep.cov["operators_contained_in_intended_schedule"] = nops - len(drift)
+    rep.cov["single_operator_shapes_observed"] = len(race_shapes)
+    if drift:
+        rep.cov["schedule_model_drift"] = drift[:20]
+        print("NOTE C11: ZebraSchedule.tla no longer describes the code (not a violation by itself; the observed tables were judged instead): " + "; ".join(drift[:3]))
     rep.cov["rule"] = ("each case = one whole setup()+solve() of the real library on a grid-shape class (number of circles mod 2,3,4; ntheta mod 3 and 4) x "
                        "strategy x extrapolation x FMG x boundary mode x team size; every distinct region table is one TLC state")
 
